@@ -1114,5 +1114,295 @@ theorem actorStep_Phase {P : Program} (hP : WB P) (G : Prop) (ds : List Bytes) {
     simp only [actorStep, hpc]
     exact Phase.finished hpc hi ht hc hcl
 
+/-! ## lifting the with-caller invariant to reachable states; failures -/
+
+@[simp] theorem enterClose_inHandler (a : Actor) (l : List (PreCall × Bool)) :
+    (enterClose a l).inHandler = a.inHandler := (enterClose_shape a l).2.2.1
+
+@[simp] theorem settle_inHandler (P : Program) (b : Actor) (l : List Op) :
+    (settle P b l).inHandler = b.inHandler := by
+  induction l generalizing b with
+  | nil => rfl
+  | cons o rest ih =>
+    cases o <;> simp only [settle]
+    · split
+      · exact ih b
+      · exact (enterClose_shape _ _).2.2.1
+    · split
+      · exact ih b
+      · split
+        · rfl
+        · split
+          · rfl
+          · exact ih _
+
+theorem actorStep_cfg (P : Program) (a : Actor) (lt f : Bool) :
+    (actorStep P a lt f).1.hW = a.hW ∧ (actorStep P a lt f).1.hC = a.hC := by
+  cases hpc : a.pc with
+  | done => simp [actorStep, hpc]
+  | start => cases f <;> cases lt <;> cases hx : P.openExcl <;> simp [actorStep, hpc, hx]
+  | wr d => cases f <;> cases hfo : a.fopen <;> simp [actorStep, hpc, hfo]
+  | pre c t rest =>
+    cases f <;> cases c <;> cases lt <;> cases hfo : a.fopen <;> simp [actorStep, hpc, hfo]
+  | replace => cases f <;> cases lt <;> cases hfa : P.finallyAbort <;> simp [actorStep, hpc, hfa]
+  | fcClose pending => cases f <;> cases hx : P.abortCloseInTry <;> simp [actorStep, hpc, hx]
+  | rmClose pending => cases f <;> cases lt <;> simp [actorStep, hpc]
+  | fcAbort => cases f <;> cases hx : P.abortCloseInTry <;> simp [actorStep, hpc, hx]
+  | rmAbort => cases f <;> cases lt <;> simp [actorStep, hpc]
+
+/-- with `try: self._file.close() finally: <unlink>` in abort(), closing the file object can no
+longer make abort() skip the unlink -/
+theorem actorStep_fcFailed {P : Program} (hx : P.abortCloseInTry = true) (a : Actor) (lt f : Bool)
+    (h : a.fcFailed = false) : (actorStep P a lt f).1.fcFailed = false := by
+  cases hpc : a.pc with
+  | done => simp [actorStep, hpc, h]
+  | start => cases f <;> cases lt <;> cases hy : P.openExcl <;> simp [actorStep, hpc, hy, h]
+  | wr d => cases f <;> cases hfo : a.fopen <;> simp [actorStep, hpc, hfo, h]
+  | pre c t rest =>
+    cases f <;> cases c <;> cases lt <;> cases hfo : a.fopen <;> simp [actorStep, hpc, hfo, h]
+  | replace => cases f <;> cases lt <;> cases hfa : P.finallyAbort <;> simp [actorStep, hpc, hfa, h]
+  | fcClose pending => cases f <;> simp [actorStep, hpc, hx, h]
+  | rmClose pending => cases f <;> cases lt <;> simp [actorStep, hpc, h]
+  | fcAbort => cases f <;> simp [actorStep, hpc, hx, h]
+  | rmAbort => cases f <;> cases lt <;> simp [actorStep, hpc, h]
+
+theorem withCaller_cfg (fs pm : Bool) (ds : List Bytes) (fin : Bool) :
+    WithCfg (withCaller fs pm ds fin) := by
+  refine ⟨by simp [withCaller, Actor.init, Gen.Lock.exitAbortsOnException], ?_⟩
+  cases fin <;> simp [withCaller, Actor.init, Gen.Lock.delAborts]
+
+theorem withCaller_phase (G : Prop) (fs pm : Bool) (ds : List Bytes) (fin : Bool) :
+    Phase G ds (withCaller fs pm ds fin) :=
+  Phase.start rfl rfl rfl rfl rfl
+
+theorem reach_preInTry {P : Program} (hall : P.closePre.all (fun p => p.2) = true) {s0 s : State}
+    (h0 : Initial s0) (h : Reach P s0 s) (i : Nat) : PreInTry (s.actors i) := by
+  induction h with
+  | init =>
+    obtain ⟨f, p, b, hW, hC, e⟩ := h0.fresh i
+    rw [e]; simp [PreInTry, Actor.init]
+  | step s j f _ ih =>
+    by_cases hji : i = j
+    · subst hji; rw [step_actor_self]; exact actorStep_preInTry P hall _ _ ih
+    · rw [step_actor_other _ _ _ hji]; exact ih
+
+theorem reach_fcFailed {P : Program} (hx : P.abortCloseInTry = true) {s0 s : State}
+    (h0 : Initial s0) (h : Reach P s0 s) (i : Nat) : (s.actors i).fcFailed = false := by
+  induction h with
+  | init =>
+    obtain ⟨f, p, b, hW, hC, e⟩ := h0.fresh i
+    rw [e]; rfl
+  | step s j f _ ih =>
+    by_cases hji : i = j
+    · subst hji; rw [step_actor_self]; exact actorStep_fcFailed hx _ _ _ ih
+    · rw [step_actor_other _ _ _ hji]; exact ih
+
+/-- everything we know about a with-caller in a reachable state (`G` may only be assumed when the
+program aborts on every failure inside close()) -/
+theorem reach_with {P : Program} (hP : WB P) (G : Prop)
+    (hG : G → P.abortsOnAnyCloseFailure = true) {s0 s : State} (h0 : Initial s0) (i : Nat)
+    {fs pm fin : Bool} {ds : List Bytes} (hi : s0.actors i = withCaller fs pm ds fin)
+    (h : Reach P s0 s) :
+    Phase G ds (s.actors i) ∧ (s.actors i).hW = [.abort] ∧
+      (s.actors i).hC = (withCaller fs pm ds fin).hC := by
+  induction h with
+  | init =>
+    rw [hi]; exact ⟨withCaller_phase _ _ _ _ _, (withCaller_cfg _ _ _ _).1, rfl⟩
+  | step s j f hr ih =>
+    obtain ⟨hph, hw, hc⟩ := ih
+    by_cases hji : i = j
+    · subst hji
+      rw [step_actor_self]
+      have hcfg := actorStep_cfg P (s.actors i) s.fs.lock.isSome f
+      have hwc : WithCfg (s.actors i) := ⟨hw, by rw [hc]; exact (withCaller_cfg _ _ _ _).2⟩
+      have hG' : G → P.finallyAbort = true ∧ PreInTry (s.actors i) := by
+        intro g
+        have := hG g
+        simp only [Program.abortsOnAnyCloseFailure, Bool.and_eq_true] at this
+        exact ⟨this.1, reach_preInTry this.2 h0 hr i⟩
+      exact ⟨actorStep_Phase hP G ds _ _ ((reach_Inv hP h0 hr).actors i) hwc hG' hph,
+        hcfg.1.trans hw, hcfg.2.trans hc⟩
+    · rw [step_actor_other _ _ _ hji]; exact ⟨hph, hw, hc⟩
+
+/-- the call the actor makes at `pc` — the open, a write, a call of close() up to and including
+the rename — did not succeed (injected error, `FileLocked`, `ValueError`, `FileNotFoundError`) -/
+def Out.isFailure (pc : Pc) (o : Out) : Bool :=
+  (match pc with | .start => true | .wr _ => true | .pre _ _ _ => true | .replace => true | _ => false)
+    && (match o with | .injected => true | .valueError => true | .exists => true | .noent => true
+                     | _ => false)
+
+/-- a failure has been registered: the caller is in its exception handler, or close() is on its
+way out (through abort()) with an exception pending, or there never was a handle -/
+def Failed (a : Actor) : Prop :=
+  a.inHandler = true ∨ a.pc = .rmClose true ∨ a.pc = .fcClose true ∨
+    (a.opened = false ∧ a.pc = .done)
+
+@[simp] theorem raise_inHandler (P : Program) (a : Actor) (l : List Op) :
+    (raise P a l).inHandler = true := by
+  unfold raise
+  split
+  · assumption
+  · simp
+
+@[simp] theorem afterClose_inHandler_of (P : Program) (a : Actor) (p : Bool)
+    (h : a.inHandler = true) : (afterClose P a p).inHandler = true := by
+  unfold afterClose; split <;> simp [h]
+
+@[simp] theorem unlinkInClose_inHandler_of (P : Program) (a : Actor) (p : Bool)
+    (h : a.inHandler = true) : (unlinkInClose P a p).inHandler = true := by
+  unfold unlinkInClose
+  split
+  · exact h
+  · exact afterClose_inHandler_of _ _ _ h
+
+@[simp] theorem abortInClose_inHandler_of (P : Program) (a : Actor) (p : Bool)
+    (h : a.inHandler = true) : (abortInClose P a p).inHandler = true := by
+  unfold abortInClose
+  split
+  · exact afterClose_inHandler_of _ _ _ h
+  · split
+    · exact h
+    · exact unlinkInClose_inHandler_of _ _ _ h
+
+@[simp] theorem unlinkInAbort_inHandler (P : Program) (a : Actor) :
+    (unlinkInAbort P a).inHandler = a.inHandler := by
+  unfold unlinkInAbort
+  split
+  · rfl
+  · simp
+
+@[simp] theorem preFail_inHandler_of (P : Program) (a : Actor) (t : Bool)
+    (h : a.inHandler = true) : (preFail P a t).inHandler = true := by
+  unfold preFail; split
+  · exact abortInClose_inHandler_of _ _ _ h
+  · simp
+
+theorem Phase.committed_none_of_failed {G : Prop} {ds : List Bytes} {a : Actor} (hl : LInv a)
+    (h : Phase G ds a) (hf : Failed a) : a.committed = none := by
+  cases h with
+  | start _ _ _ _ hc => exact hc
+  | writing _ _ _ _ _ _ _ _ hc _ => exact hc
+  | closing _ _ _ _ hc => exact hc
+  | failedRm _ _ _ hc => exact hc
+  | handler _ _ hc _ => exact hc
+  | finished hpc hi _ _ _ =>
+    rcases hf with hf | hf | hf | ⟨hf, _⟩
+    · rw [hi] at hf; simp at hf
+    · rw [hpc] at hf; simp at hf
+    · rw [hpc] at hf; simp at hf
+    · rcases hl with hn | hr
+      · exact hn.2.2.2.2.1
+      · rw [hr.1.opened] at hf; simp at hf
+
+/-- abort() inside close() with an exception pending keeps the failure registered -/
+theorem failed_unlinkInClose (P : Program) (b : Actor) : Failed (unlinkInClose P b true) := by
+  unfold unlinkInClose
+  split
+  · right; left; rfl
+  · left; unfold afterClose; simp
+
+theorem failed_abortInClose (P : Program) (b : Actor) : Failed (abortInClose P b true) := by
+  unfold abortInClose
+  split
+  · left; unfold afterClose; simp
+  · split
+    · right; right; left; rfl
+    · exact failed_unlinkInClose P b
+
+theorem failed_preFail (P : Program) (b : Actor) (t : Bool) : Failed (preFail P b t) := by
+  unfold preFail
+  split
+  · exact failed_abortInClose P b
+  · left; simp
+
+/-- once registered, a failure stays registered -/
+theorem actorStep_Failed {P : Program} {a : Actor} (lt f : Bool) (hf : Failed a) :
+    Failed (actorStep P a lt f).1 := by
+  rcases hf with hf | hf | hf | ⟨hf1, hf2⟩
+  · -- in the handler: `inHandler` is never reset
+    left
+    cases hpc : a.pc with
+    | done => simp [actorStep, hpc, hf]
+    | start => cases f <;> cases lt <;> cases hx : P.openExcl <;> simp [actorStep, hpc, hf, hx]
+    | wr d => cases f <;> cases hfo : a.fopen <;> simp [actorStep, hpc, hfo, hf]
+    | pre c t rest =>
+      cases f <;> cases c <;> cases lt <;> cases hfo : a.fopen <;> simp [actorStep, hpc, hfo, hf]
+    | replace =>
+      cases f <;> cases lt <;> cases hfa : P.finallyAbort <;> simp [actorStep, hpc, hfa, hf]
+    | fcClose pending =>
+      cases f <;> cases hx : P.abortCloseInTry <;> simp [actorStep, hpc, hx, hf]
+    | rmClose pending => cases f <;> cases lt <;> simp [actorStep, hpc, hf]
+    | fcAbort => cases f <;> cases hx : P.abortCloseInTry <;> simp [actorStep, hpc, hx, hf]
+    | rmAbort => cases f <;> cases lt <;> simp [actorStep, hpc, hf]
+  · -- close() leaving with a pending exception: its unlink, then the exception reaches the caller
+    left
+    cases f <;> cases lt <;> simp [actorStep, hf, afterClose]
+  · -- … or first the file object
+    simp only [actorStep, hf]
+    split
+    · split
+      · exact failed_unlinkInClose P _
+      · left; simp
+    · exact failed_unlinkInClose P _
+  · right; right; right
+    simp [actorStep, hf2, hf1]
+
+/-- a failing call registers as a failure -/
+theorem actorStep_registers {P : Program} {a : Actor} (lt f : Bool) (hl : LInv a)
+    (h : Out.isFailure a.pc (actorStep P a lt f).2.2 = true) : Failed (actorStep P a lt f).1 := by
+  cases hpc : a.pc with
+  | done => simp [Out.isFailure, hpc] at h
+  | fcClose p => simp [Out.isFailure, hpc] at h
+  | rmClose p => simp [Out.isFailure, hpc] at h
+  | fcAbort => simp [Out.isFailure, hpc] at h
+  | rmAbort => simp [Out.isFailure, hpc] at h
+  | start =>
+    have hn := hl.noHandle_of_start hpc
+    right; right; right
+    revert h
+    cases f <;> cases lt <;> cases hx : P.openExcl <;>
+      simp [actorStep, hpc, hx, Out.isFailure, hn.1]
+  | wr d =>
+    left
+    revert h
+    cases f <;> cases hfo : a.fopen <;> simp [actorStep, hpc, hfo, Out.isFailure]
+  | pre c t rest =>
+    revert h
+    cases f <;> cases c <;> cases lt <;> cases hfo : a.fopen <;>
+      simp [actorStep, hpc, hfo, Out.isFailure] <;> exact failed_preFail P _ t
+  | replace =>
+    have key : Failed (if P.finallyAbort = true then abortInClose P a true else raise P a a.hC) := by
+      split
+      · exact failed_abortInClose P a
+      · left; simp
+    revert h
+    cases f <;> cases lt <;> simp [actorStep, hpc, Out.isFailure] <;> exact key
+
+theorem Reach.trans {P : Program} {s0 s1 s2 : State} (h1 : Reach P s0 s1) (h2 : Reach P s1 s2) :
+    Reach P s0 s2 := by
+  induction h2 with
+  | init => exact h1
+  | step s i f _ ih => exact Reach.step s i f ih
+
+theorem reach_run (P : Program) (s : State) (sc : Sched) : Reach P s (run P s sc) := by
+  induction sc generalizing s with
+  | nil => exact Reach.init
+  | cons p rest ih =>
+    obtain ⟨i, f⟩ := p
+    exact Reach.trans (Reach.step s i f Reach.init) (ih _)
+
+theorem State.ofList_initial (tgt : Bool) (as : List Actor)
+    (h : ∀ a ∈ as, ∃ fs pm body hW hC, a = Actor.init fs pm body hW hC) :
+    Initial (State.ofList tgt as) := by
+  refine ⟨rfl, ?_, fun i => ?_⟩
+  · cases tgt <;> simp [State.ofList]
+  · simp only [State.ofList]
+    by_cases hi : i < as.length
+    · have : as.getD i (Actor.init false false [] [] []) = as[i] := by simp [List.getD, hi]
+      rw [this]; exact h _ (List.getElem_mem hi)
+    · have : as.getD i (Actor.init false false [] [] []) = Actor.init false false [] [] [] := by
+        simp [List.getD, List.getElem?_eq_none (Nat.le_of_not_lt hi)]
+      rw [this]; exact ⟨_, _, _, _, _, rfl⟩
+
 
 end Dulwich.Lock
